@@ -1,6 +1,6 @@
 SPECIFICATION Spec
 CONSTANTS
   Mods = {"ma", "mb", "mc"}
-  Family = "graph3"
+  Families = {"graph3", "diamond", "flat3", "sample"}
 INVARIANTS TypeOK RunOnce NoReentry OneObject Provenance StarRespectsUnderscore Terminates Usable Emit
 CHECK_DEADLOCK FALSE
